@@ -237,7 +237,7 @@ func genLineStartsLiteral(c *core.Ctx) {
 	}
 	lines, bad := 0, 0
 	for _, call := range astx.CallsDeep(pre.Body) {
-		if !isGP(info, call) || call.Pos() >= pkgLine.Pos() {
+		if !isGP(info, call) || call == pkgLine || !astx.Precedes(pre.Body, call, pkgLine) {
 			continue
 		}
 		lines++
